@@ -420,6 +420,19 @@ def install(mods):
                     for i, (o, n_) in enumerate(zip(old_sorts, new_sorts))
                     if o is not None and not str(o).startswith('!') and
                     not str(n_).startswith('!') and o != n_]
+                # the same answers for a fresh process to recompute: within
+                # this process a table that is never reset stays invisible
+                _STATE['tables_n'] = _STATE.get('tables_n', 0) + 1
+                if _STATE['tables_n'] in (1, 2, 3, 5, 8, 13, 21, 34, 55, 89,
+                                          144, 233, 377, 610, 987):
+                    try:
+                        snap = nodeio.write_smtlib_to_str(exprs)
+                        if len(snap) <= 20000:
+                            emit('tables_snapshot', where=where, text=snap,
+                                 sorts=old_sorts, defs=old_defs)
+                    except Exception as e:  # noqa
+                        emit('monitor_error', where='tables-snapshot',
+                             error=repr(e))
                 emit('tables', where=where, nodes=len(terms),
                      defs=len(new_defs), known_sorts=sum(
                          1 for x in new_sorts if x is not None),
